@@ -161,11 +161,15 @@ impl Span {
 
         #[cfg(feature = "enable")]
         {
-            let token = parents
+            let token: CollectToken = parents
                 .into_iter()
                 .filter_map(|span| span.inner.as_ref())
                 .flat_map(|inner| inner.issue_collect_token())
                 .collect();
+            if token.is_empty() {
+                // No parent belongs to a trace: the child is not part of any trace either.
+                return Self::noop();
+            }
             Self::new(token, name, None)
         }
     }
